@@ -30,7 +30,8 @@ int evbuffer_add(struct evbuffer *b, const void *data, size_t n)
 	VP_ASSERT(b == &vp_out_buf, "ws: data added to something else than the connection's output buffer");
 	if (vp_nadds < 4) { vp_adds[vp_nadds].p = data; vp_adds[vp_nadds].n = n; }
 	vp_nadds++;
-	for (i = 0; i < n && vp_sink_len < VP_SINK; i++) vp_sink[vp_sink_len++] = ((const unsigned char *)data)[i];
+	if (n <= 16)   /* headers and control frames are copied; payloads are only recorded as (pointer, length) */
+		for (i = 0; i < n && vp_sink_len < VP_SINK; i++) vp_sink[vp_sink_len++] = ((const unsigned char *)data)[i];
 	vp_sink_total += n;
 	return 0;
 }
